@@ -169,6 +169,26 @@ def run(facts, R):
                 if f["val"] == "_0" and "poll_fn" in render(f["expr"]) and _first_select_future_is_shutdown(lb, ls):
                     stops.append((x, 0))
                     used.add("shutdown-signal")
+        if "shutdown-signal" in used:
+            # the exception's premise, checked: the shutdown oneshot is taken / fired only by Drop for the inner state (when no handle
+            # and therefore no call is left).  A `close()` that fires it while clones have calls in flight ends the loop through the
+            # exempted exit with the waiters still parked
+            for b_ in facts.bodies.values():
+                if b_.path.split("::")[0].lstrip("<") != module or "::tests::" in b_.path:
+                    continue
+                s_ = None
+                for i_, t_ in b_.calls():
+                    if t_["callee"]["name"] in ("take", "send", "replace", "take_if") and t_["args"]:
+                        s_ = s_ or Sym(b_)
+                        a0 = render(s_.op(t_["args"][0]))
+                        if ".shutdown" in a0 and "writer" not in a0 and t_["callee"]["name"] != "send" or (t_["callee"]["name"] == "send" and ".shutdown" in a0 and "oneshot" in t_["callee"]["path"]):
+                            in_drop = " as std::ops::Drop>::drop" in b_.path
+                            after = [term_pt(b_, j_) for j_, u_ in b_.calls() if u_["callee"]["name"] in ("fail_all_pending", "drain") and j_ in b_.reachable((i_,))]
+                            okx = in_drop or (bool(after) and must_cross(b_, [term_pt(b_, i_)], return_points(b_), after) is None)
+                            R.check(okx, "loop-exit-fails-all", b_.path, "the shutdown signal is fired only when no call can be in flight",
+                                    "%s takes / fires the response loop's shutdown signal outside Drop and does not fail the pending calls itself: the loop leaves through "
+                                    "its exempted shutdown exit while other handles still have calls in flight, and those calls wait forever"
+                                    % b_.path.rsplit("::", 2)[-2 if "{closure" in b_.path else -1], t_.get("span"), "only Drop for the inner state")
         for u in sorted(used):
             R.exception("loop-exit-fails-all", loopfn + ":" + u, EXIT_EXCEPTIONS[u])
         w = must_cross(lb, [(0, 0)], return_points(lb), fails, after_start=False, stop=stops)
